@@ -23,6 +23,53 @@ non-trivial = has >= 1 data block; distinct = distinct (block subset, pointer or
     ctx.floor_evaluations = 2_048;
     let seed = ctx.seed;
 
+    // A long, monotonous history on one thread, then a change: 66,000 surveillance-like radials
+    // (VOL, ELV, RAD, REF only), then full ten-block radials.  Counters that wrap after 2^16
+    // events, tables that fill up, batches flushed every N-th item all sit quietly through random
+    // workloads; each message is checked as any other.
+    {
+        let mut obs = crate::ev::Obs::new();
+        let mut rng = Rng::derive(seed, 2, u64::MAX);
+        let n = 66_000u64;
+        for k in 0..n + 40 {
+            // the six remaining products appear for the first time right at the places where a
+            // 15- or 16-bit counter of messages turns over: one each at message 32767, 32768, 32769,
+            // 65535, 65536 and 65537 of the thread
+            let m = k + 1;
+            let mut subset: u16 = if k < n { 0b0000001111 } else { 0b1111111111 };
+            for (slot, first) in [(4u16, 32_767u64), (5, 32_768), (6, 32_769), (7, 65_535), (8, 65_536), (9, 65_537)] {
+                if m >= first {
+                    subset |= 1 << slot;
+                }
+            }
+            let mut spec = gen_msg31(&mut rng, subset, false, false);
+            for b in spec.blocks.iter_mut() {
+                if let crate::enc::Block::Mom(m) = b {
+                    m.gates %= 4;
+                    m.data.truncate(m.gates as usize * (m.word as usize / 8));
+                }
+            }
+            let body = spec.encode(&mut rng);
+            match mon::catch(|| decode_digital_radar_data(&mut Cursor::new(&body[..]))) {
+                Ok(Ok(m)) => {
+                    if let Some(d) = cmp31::compare(&spec, &m).first() {
+                        obs.violation(format!("field {}", d.field), format!("{} [message {} of a long run on one thread]", d.detail, k + 1), json!({"long_run_message": k + 1, "subset": subset}));
+                        break;
+                    }
+                }
+                Ok(Err(e)) => {
+                    obs.violation("well-formed message refused: decode error", format!("{e:?} [message {} of a long run on one thread]", k + 1), json!({"long_run_message": k + 1}));
+                    break;
+                }
+                Err(p) => {
+                    obs.violation(format!("well-formed message refused: {}", p.signature()), p.message, json!({"long_run_message": k + 1}));
+                    break;
+                }
+            }
+        }
+        obs.count("messages_of_the_long_run_on_one_thread", n + 40);
+        ctx.obs.merge(obs);
+    }
     par_cases(ctx, total, |i, obs| {
         let mut rng = Rng::derive(seed, 2, i);
         // the first 2048 cases enumerate all subsets in both layouts; the rest are random subsets
